@@ -183,6 +183,7 @@ static void body(const symx::Case &c, const std::string &line) {
     build_graph(I, g, eidx);
     const orc::Topo &t = I.topo;
     WeightMap wm = boost::get(boost::edge_weight, g);
+    e->case_json += ",\"layout\":\"" + address_order(g, eidx) + "\"";
     std::list<std::list<Edge>> cycles;
     Real ret;
     bool threw = false;
@@ -218,7 +219,7 @@ static void body(const symx::Case &c, const std::string &line) {
     symx::prove(ret.expr() == lin_of_cycles(cyc, I.w).expr(), "C03:ret==weight-of-emitted-cycles");
     if (valid) {
         if (!approx || k == 1) prove_minimal(cyc, I.w, t.m(), "C03:");
-        else if (cyc.size() <= 5) prove_no_lighter_basis(cyc, I.w, t.m(), (long) (2 * k - 1), ret.expr(), "C03:ret<=(2k-1)*OPT");
+        else if (cyc.size() <= 4) prove_no_lighter_basis(cyc, I.w, t.m(), (long) (2 * k - 1), ret.expr(), "C03:ret<=(2k-1)*OPT");
     }
     symx::require(!e->tainted_inf, "C07:no-arithmetic-on-infinity");
 }
